@@ -23,6 +23,7 @@
                                  q parent of d, q not x, q not a descendant of x} - and must agree as such: B[r] = In(r), N[p,r] = In(p),
                                  D[p,r] = In(r) without (p, r).  (Sibling agreement: an edit to one instance that is not made to the
                                  others makes GBP converge to a wrong fixed point on region graphs deep enough to tell them apart.)
+  raw-arrays-by-name         where an oracle method pairs raw arrays cell by cell, both are laid out by the same domain
   total-stored / none-test   the oracle constructors store the caller's total as it is; a None default is tested by comparison with None (0 is a legal total)
 Not decided: exactness on acyclic structures as a numerical statement (only the agreement of the message sets above).
 """
@@ -120,6 +121,7 @@ def run(ctx):
     for q_, f_ in sorted(ctx.repo.module(RG).funcs.items()):
         if q_.startswith('RegionGraph.') and '<locals>' not in q_:
             minimal_scan(ctx, f_, 'region-structure')
+    check_raw_arrays(ctx)
     check_fg_datavector(ctx)
     check_carried_messages(ctx)
     check_reiterable_sets(ctx)
@@ -127,6 +129,23 @@ def run(ctx):
     check_gbp_sets(ctx)
     check_call_local_caches(ctx, [gbp, lbp, cm, repo.nfunc(RG, 'RegionGraph.hazan_peng_shashua')])
     ctx.floor('exp sites', sum(1 for o in ctx.obligations if o.rule == 'exp-normalised'), 2)
+
+
+def check_raw_arrays(ctx):
+    """The oracles combine tables through the Factor algebra, which aligns operands by attribute NAME.  Where a method reaches into the
+    raw arrays (`a.values + b.values`, `Factor(dom, vals)`), the cells are paired by POSITION: the operands must then be laid out by the
+    same domain (layout types, engines/layout.py) - a message and its update over the same attributes in another order add up cell by
+    cell to a wrong table of the right shape.  No such site exists today; the rule is armed for the ones a change introduces."""
+    from ..engines.layout import LayoutTyper
+    n = 0
+    for rel, cls in ((RG, 'RegionGraph'), (FG, 'FactorGraph')):
+        for name, fi in sorted(ctx.repo.nmethods(rel, cls).items()):
+            n += 1
+
+            def report(rule, node, ok, detail, fi=fi):
+                ctx.ob('raw-arrays-by-name', fi, node, ok, detail)
+            LayoutTyper(fi, report, self_is_factor=False).analyse()
+    ctx.floor('oracle methods scanned for positional pairing of raw arrays', n, 20)
 
 
 def check_sweep_termination(ctx):
